@@ -58,7 +58,7 @@ G_PARENTS = {"svg", "g", "defs", "symbol"}
 # foreign-namespace attributes whose *local* name is an SVG attribute the conversion reads
 FIELD_ATTRS = {"fill": "lime", "opacity": "0.1", "transform": "translate(40 40)", "display": "none", "d": "M0,0 L90,0 L90,90 Z", "cx": "1", "width": "1", "id": "dup", "style": "fill:pink"}
 TREE_NOISE = {"comment", "pi", "ws", "pi-before-root"}  # what SVG.fromstring's parser would have discarded while reading
-NOISE = ["comment", "pi", "title", "desc", "metadata", "foreignel", "symbol", "ws", "symbol-use", "symbol-style", "symbol-svg"]
+NOISE = ["comment", "pi", "title", "desc", "metadata", "foreignel", "symbol", "ws", "symbol-use", "symbol-style", "symbol-svg", "title-prefixed"]
 
 
 _ST = '<stop offset="0" stop-color="red"/><stop offset="1" stop-color="blue"/>'
@@ -87,6 +87,9 @@ def template_bases():
     from mc.props import c06
 
     out = []
+    from mc.gen import big
+
+    out.append(("X:wrapper26", big.big_wrapper(26)[1].replace("<g>", "", 1).replace("</g>", "", 1)))
     for name, k in (
         ("X:tpl-partial", ("linear", "numbers", "userSpaceOnUse", "translate", "pad", "partial", "none", "rect", "none")),
         ("X:tpl-partial-after", ("radial", "numbers", "userSpaceOnUse", "scaletr", "pad", "partial-after", "none", "rect", "translate")),
@@ -153,7 +156,7 @@ def positions(root):
             for kind in NOISE:
                 if kind.startswith("symbol") and loc not in G_PARENTS:
                     continue
-                if kind in ("symbol-use", "symbol-style", "symbol-svg") and ci not in (0, nchild):
+                if kind in ("symbol-use", "symbol-style", "symbol-svg", "title-prefixed") and ci not in (0, nchild):
                     continue  # the hostile id-less symbols: first and last position of every parent
                 ops.append((kind, ei, ci, 0))
         ops.append(("foreignattr-root", ei, 0, 0))
@@ -163,6 +166,10 @@ def positions(root):
         if loc in G_PARENTS - {"defs"} or loc == "defs":
             # wrapper g around one child / a run of children
             kids = [c for c in el if isinstance(c.tag, str)]
+            if len(kids) >= 8:
+                ops.append(("wrap", ei, 0, len(kids) - 1))
+                ops.append(("wrap", ei, 0, len(kids)))
+                ops.append(("wrap", ei, 1, len(kids) - 1))
             for ci in range(len(kids)):
                 for span in (1, 2, 3):
                     if ci + span <= len(kids):
@@ -216,6 +223,13 @@ def apply_ops(doc, ops):
             r = etree.SubElement(n, tag("rect"))
             r.set("width", "7")
             r.set("height", "7")
+            el.insert(ci, n)
+        elif kind == "title-prefixed":
+            # the SVG namespace under a prefix that is declared on the noise element itself: still a title / desc / metadata
+            frag = etree.fromstring('<wrap xmlns:s="http://www.w3.org/2000/svg"><s:title xmlns:s="http://www.w3.org/2000/svg">t</s:title></wrap>')
+            n = frag[0]
+            m = etree.fromstring('<s:metadata xmlns:s="http://www.w3.org/2000/svg"><s:desc>d</s:desc></s:metadata>')
+            el.insert(ci, m)
             el.insert(ci, n)
         elif kind in ("symbol-use", "symbol-style", "symbol-svg"):
             # id-less symbols are never instantiated: whatever they contain is ignorable, however broken
